@@ -83,6 +83,9 @@ func DrawWorldCfg(t *sim.T) WorldCfg {
 	}
 	if t.Chance(1, 12) {
 		c.Trips = t.Range(9, 30) // many trips: UID ordering, map growth
+		if t.Chance(1, 4) {
+			c.Trips = t.Range(65, 300) // more trips than small fixed capacities (64, 128, 256)
+		}
 	}
 	c.LongLines = t.Chance(1, 10)
 	c.DateVariety = t.Chance(1, 4)
